@@ -56,7 +56,7 @@ pub fn run_case(master: u64, idx: u64) -> InprocCase {
             g.gen += 1;
             cv.notify_all();
         } else {
-            let deadline = Instant::now() + Duration::from_secs(4);
+            let deadline = Instant::now() + Duration::from_secs(10);
             while g.gen == my_gen {
                 let now = Instant::now();
                 if now >= deadline {
@@ -102,7 +102,7 @@ pub fn run_fail_case(master: u64, idx: u64) -> InprocCase {
         cv.notify_all();
         if me == 0 {
             // wait (at most 4 s) until a second call is executing, then fail
-            let deadline = Instant::now() + Duration::from_secs(4);
+            let deadline = Instant::now() + Duration::from_secs(10);
             while g.running < 2 {
                 let now = Instant::now();
                 if now >= deadline {
